@@ -379,12 +379,12 @@ func (w *world) setupConn() bool {
 		for i := range psk {
 			psk[i] = byte(i*3 + 1)
 		}
-		ca, err := pnet.NewProtectedConn(psk, w.rawA)
+		ca, err := pnet.NewProtectedConn(psk, &dlConn{Conn: w.rawA})
 		if err != nil {
 			w.o.Trouble = "pnet: " + err.Error()
 			return false
 		}
-		cb, err := pnet.NewProtectedConn(psk, w.rawB)
+		cb, err := pnet.NewProtectedConn(psk, &dlConn{Conn: w.rawB})
 		if err != nil {
 			w.o.Trouble = "pnet: " + err.Error()
 			return false
@@ -392,13 +392,37 @@ func (w *world) setupConn() bool {
 		w.connA, w.connB = ca, cb
 		return true
 	}
-	a, b, ok := w.secureHandshake(w.rawA, w.rawB, p.layer == layTLS, "handshake")
+	a, b, ok := w.secureHandshake(&dlConn{Conn: w.rawA}, &dlConn{Conn: w.rawB}, p.layer == layTLS, "handshake")
 	w.connA, w.connB = a, b
 	return ok
 }
 
 // secureHandshake runs the real Noise / TLS handshake over a raw pair from two tasks.
-func (w *world) secureHandshake(rawA, rawB *simnet.Conn, useTLS bool, stage string) (net.Conn, net.Conn, bool) {
+// dlConn gives the raw connection of the bare layers the write-deadline behaviour of a real socket: a Write whose
+// deadline has already passed fails with a timeout before anything is written (internal/poll checks the deadline before
+// the first write attempt). simnet itself consults the write deadline only when the writer is blocked by 8 MiB in flight.
+type dlConn struct {
+	*simnet.Conn
+	mu  sync.Mutex
+	wdl time.Time
+}
+
+func (c *dlConn) setW(t time.Time) { c.mu.Lock(); c.wdl = t; c.mu.Unlock() }
+
+func (c *dlConn) SetDeadline(t time.Time) error      { c.setW(t); return c.Conn.SetDeadline(t) }
+func (c *dlConn) SetWriteDeadline(t time.Time) error { c.setW(t); return c.Conn.SetWriteDeadline(t) }
+
+func (c *dlConn) Write(p []byte) (int, error) {
+	c.mu.Lock()
+	dl := c.wdl
+	c.mu.Unlock()
+	if !dl.IsZero() && !time.Now().Before(dl) {
+		return 0, &net.OpError{Op: "write", Net: "tcp", Addr: c.Conn.LocalAddr(), Err: os.ErrDeadlineExceeded}
+	}
+	return c.Conn.Write(p)
+}
+
+func (w *world) secureHandshake(rawA, rawB net.Conn, useTLS bool, stage string) (net.Conn, net.Conn, bool) {
 	keyA, keyB := simhost.DetKey(1), simhost.DetKey(2)
 	var tA, tB sec.SecureTransport
 	var err error
@@ -651,7 +675,7 @@ func (w *world) sickDials() bool {
 func protoOf(s int) protocol.ID { return protocol.ID(fmt.Sprintf("/c02/%d", s)) }
 
 func streamEnd(st network.Stream) *end {
-	return &end{rw: st, setRDL: st.SetReadDeadline, closeW: st.CloseWrite}
+	return &end{rw: st, setRDL: st.SetReadDeadline, setWDL: st.SetWriteDeadline, closeW: st.CloseWrite}
 }
 
 // acceptB runs on B's stream-handler task: B's reader of A>B and writer of B>A start here.
@@ -940,7 +964,7 @@ func (w *world) sacrifice(i int, sp sacPlan) bool {
 }
 
 func (w *world) connEnd(c net.Conn, raw *simnet.Conn) *end {
-	e := &end{rw: c, setRDL: c.SetReadDeadline}
+	e := &end{rw: c, setRDL: c.SetReadDeadline, setWDL: c.SetWriteDeadline}
 	if w.p.layer == layNoise || w.p.layer == layPnet {
 		base := raw.Stats().BytesIn // the handshake is over and consumed: nothing is in flight or buffered
 		e.rawIn = func() int { return raw.Stats().BytesIn - base }
@@ -1314,6 +1338,27 @@ func (w *world) judge(c *chanState, faulted, advFired, stallFired bool) {
 		// (every pending Read / Write then fails): a task blocked beyond that is a hang, not an error outcome.
 		w.violate("C02/hang/"+lay+"/after-faults-stopped", fmt.Sprintf("%s: the wire has been fault-free for more than %v and no Read or Write returned in that time; reader done=%v at offset %d of %d, writer done=%v accepted %d",
 			c.id, quietLimit, c.rDone.Load(), c.off, cp.total, c.wDone.Load(), c.accepted))
+	}
+	// "deadline, then carry on" (writer): where the layer cannot resume after a Write that timed out, only "never wrong
+	// data" is left for this direction - see the header (Noise: the failed frame consumed a nonce, the reader's next frame
+	// fails authentication; crypto/tls documents that a timed-out Write corrupts the state and every later Write returns
+	// the same error; the lazy multistream conn keeps the error of its first, handshake-carrying write for good).
+	if c.ws[0].wTimeouts > 0 {
+		l := w.p.layer
+		if l == layNoise || (c.wErr != "" && l == layTLS) {
+			w.probes["observation:write-deadline-ended-the-session/"+lay]++
+			return
+		}
+	}
+	if isHostLayer(w.p.layer) {
+		// the opener's first write carries the multistream handshake: when it timed out and the lazy conn kept that error,
+		// the listener never gets the stream's protocol and neither direction of the stream comes to life
+		if ab := w.chans[c.stream][0]; ab.ws[0].wTimeouts > 0 && ab.wErr != "" && ab.p.wdl.idx == 0 {
+			if c.dir == 0 {
+				w.probes["observation:write-deadline-ended-the-session/"+lay]++
+			}
+			return
+		}
 	}
 	if faulted || c.hadTimeout {
 		return // weak regime: a correct prefix and the EOF rules above
